@@ -104,6 +104,28 @@ def gen_case(rng, e, idx, real=False, pre_pool=None):
         p["mls"] = HUGE
         if failfast:
             p["flags"] = flags & ~F_FAILFAST
+    if e["kind"] == "concat-garbage":
+        # every combination of the LZMA_TELL_* flags with LZMA_CONCATENATED: the status behind the first Stream must not depend
+        # on an informational return having been delivered for it; few threads, no fail-fast
+        flags = F_CONCAT | (flags & F_IGNORE)
+        for f in (F_NO_CHECK, F_UNSUP, F_ANY):
+            if rng.random() < 0.5:
+                flags |= f
+        p["flags"] = flags
+        p["fin"] = 1
+        p["threads"] = rng.choice((1, 2, 3, 4))
+    if e.get("exact"):
+        # output space of EXACTLY the total output (sometimes one more / one less / none at all): a finished Block that has no
+        # unread data has to be retired without any output space
+        u = e.get("usize", 0) or 0
+        p["outcap"] = rng.choice((u, u, u, u, u, u, u + 1, max(0, u - 1), 0 if u == 0 else u))
+        p["flags"] = p["flags"] & ~F_FAILFAST
+        p["endat"] = -1
+    if not real and rng.random() < 0.5:
+        # the stream's allocator fills fresh memory with 0xA5, validates every free and reports leaks after lzma_end
+        p["alloc"] = 1
+        if rng.random() < 0.12:
+            p["failat"] = rng.randrange(1, 90)      # the N-th allocation fails
     if pre_pool and rng.random() < 0.10:
         # abandon a decode of another file on the same handle, then re-initialise: same thread count, or a larger thread
         # count for the abandoned decode (re-initialisation with fewer threads while workers are still running)
@@ -127,13 +149,17 @@ def gen_case(rng, e, idx, real=False, pre_pool=None):
     return p
 
 
-POOL_WEIGHTS = (("valid-sized", 0.34), ("valid-other", 0.12), ("invalid-sized", 0.30), ("invalid-other", 0.10), ("repo", 0.14))
+POOL_WEIGHTS = (("valid-sized", 0.31), ("valid-other", 0.11), ("invalid-sized", 0.27), ("invalid-other", 0.09), ("repo", 0.12),
+                ("flags-garbage", 0.04), ("no-output-block", 0.04), ("bad-filter-init", 0.02))
+SPECIAL_POOLS = {"concat-garbage": "flags-garbage", "no-output-block": "no-output-block", "bad-filter-init": "bad-filter-init"}
 
 
 def pools_of(entries):
     pools = {k: [] for k, _ in POOL_WEIGHTS}
     for e in entries:
-        if e["kind"].startswith("repo-"):
+        if e["kind"] in SPECIAL_POOLS:
+            pools[SPECIAL_POOLS[e["kind"]]].append(e)
+        elif e["kind"].startswith("repo-"):
             pools["repo"].append(e)
         elif e["valid"]:
             pools["valid-sized" if e.get("sized") and e.get("nblocks", 0) >= 2 else "valid-other"].append(e)
@@ -182,6 +208,11 @@ def judge(p, e, r):
         return bad
     if r["prefix"] != "1" and not (e.get("bcj") and st not in (1,)):
         bad.append("delivered output is not a prefix of the single-threaded output")
+    if int(p.get("failat", 0)) and "pre" not in p:
+        # an allocation of the threaded decoder was made to fail: LZMA_MEM_ERROR is a legitimate outcome (the single-threaded
+        # reference ran without the failure); what must hold is memory safety (allocator / sanitizer) and the output prefix
+        if mt == 5:
+            return bad
     if failfast:
         if st == 1 and (mt != 1 or r["same"] != "1"):
             bad.append("fail-fast: valid input but status %s / output differs" % RET.get(mt, mt))
